@@ -172,6 +172,10 @@ extern "C" void harness()
 #endif
 	if(INIT >= 1) g->hA = do_append(1);
 	if(INIT >= 2) g->hB = do_append(2);
+#if defined(WRAPC) && ! DISP
+	// C03 x C19: the list has seen almost 2^32 additions -- the next addition (or the one after) wraps the generation counter while the other thread runs
+	{ uint32_t c0 = vf_nondet_u32(); vf_assume(c0 >= 0xffffffffu - 1u); g->t->currentCounter.value = c0; }
+#endif
 #if DISP && defined(OTHERS)
 	g->t->appendListener(8, Cb(1008u));
 #endif
